@@ -80,8 +80,14 @@ func (p *parser) Next() *token {
 	return p.Token
 }
 
+// maxDepth bounds the nesting of expressions and blocks in source text.
+const maxDepth = 10000
+
 func (p *parser) Expression(rbp int, mask ...string) *token {
 	p.Depth++
+	if p.Depth > maxDepth { // the parser recurses on nesting; Go's stack overflow cannot be recovered
+		panicf("nested too deeply")
+	}
 	tmp := p.mask
 	p.mask = mask
 	tok := p.doExpression(rbp)
